@@ -55,6 +55,12 @@ CLAIMED = {
         text="Thousands of generated document tuples (elements, bare and {text=} text nodes, attributes and text full of markup-significant and whitespace characters, default/prefixed namespaces incl. shadowing, NULL attrs/children, declaration fields in any order) are written by the real xml converter and parsed by expat; resolved names, attributes, in-force namespace bindings, child order and text must match; every malformed-document kind must be an error; a sample goes through std/xml.ucg and `out xml` with the CLI. All differences of a document are reported, so a listed dependency defect cannot hide a new one.",
         note="Trusted: expat; my reading of the DSL in reference/converters.md. Whitespace-only text segments are ignored on both sides because the writer indents; XML-illegal characters are not generated.",
         design="DESIGN.md section 4, C12"),
+    "C14": dict(
+        engine="cli",
+        technique="runtime monitor: directory-snapshot history checker around the real `ucg build` (sha256 before/after) + byte differential against the `convert` expression; fault sequences good/bad/good",
+        text="For every converter listed by `ucg converters`, files with 0, 1 and 2 out statements and values that can and cannot be converted are built by the real CLI in scratch directories, also as the fault sequence good build -> failing build -> good build; the snapshot diff must be exactly {file.ext} with the bytes the convert expression yields, and a failing build must exit 1 and leave every byte of the directory as it was.",
+        note="Trusted: the snapshot code; the probe's eval of `convert <fmt> v` as the byte oracle.",
+        design="DESIGN.md section 4, C14"),
     "C15": dict(
         engine="probe",
         technique="runtime monitor: differential against independent decoders on Python-generated documents and their corruptions; strict decoder decides accept/reject, exclusions counted",
